@@ -1922,6 +1922,8 @@ def m_set_difference(interp, path, args, ret_ty, callee):
     a, b = deref(interp, path, args[0]), deref(interp, path, args[1])
     if b.kind == "struct" and b.ty.startswith("SymMap") and all(z3.is_false(s_.fields[2].term) for s_ in b.fields):
         b = StructV("IndexSet<empty>", [])          # a set created empty by the code and never filled
+    if a.kind == "struct" and a.ty.startswith("SymMap") and all(z3.is_false(s_.fields[2].term) for s_ in a.fields):
+        a = StructV("IndexSet<empty>", [])
     if not (_is_entry_set(a) and _is_entry_set(b)):
         raise Refuse("difference of %r and %r" % (a, b))
     return StructV("SetDiffIter", [StructV("rest", list(a.fields)), b])
